@@ -516,7 +516,33 @@ func registerIntrinsics(e *Engine) {
 		}
 	}
 	bridge1("strings.EqualFold", func(a []string) value { return strings.EqualFold(a[0], a[1]) }, 2)
-	bridge1("strings.Contains", func(a []string) value { return strings.Contains(a[0], a[1]) }, 2)
+	in["strings.Contains"] = func(fr *frame, args []value) value {
+		m := fr.m
+		sub := m.concreteString(args[1], "strings.Contains needle")
+		switch s := args[0].(type) {
+		case string:
+			return strings.Contains(s, sub)
+		case *symStr:
+			if sub == "" {
+				return true
+			}
+			for k := 0; k < len(sub); k++ {
+				if isDigit(sub[k]) || sub[k] == '.' || sub[k] == '-' {
+					panic(unsupported("strings.Contains on a symbolic string with a needle that tokens may contain"))
+				}
+			}
+			for _, g := range s.segs {
+				if g.k == segOpaque {
+					panic(unsupported("strings.Contains on an opaque symbolic string"))
+				}
+				if g.k == segLit && strings.Contains(g.lit, sub) {
+					return true
+				}
+			}
+			return false
+		}
+		panic("strings.Contains")
+	}
 	bridge1("strings.HasPrefix", func(a []string) value { return strings.HasPrefix(a[0], a[1]) }, 2)
 	bridge1("strings.HasSuffix", func(a []string) value { return strings.HasSuffix(a[0], a[1]) }, 2)
 	bridge1("strings.Index", func(a []string) value { return strings.Index(a[0], a[1]) }, 2)
@@ -882,6 +908,9 @@ func intrinsicParseCIDR(fr *frame, args []value) value {
 			ip16[10], ip16[11] = uint8(0xff), uint8(0xff)
 			copy(ip16[12:], bytesOf(a))
 			return tuple{ip16, mkNet(bytesOf(masked), bytesOf(mask)), nilError()}
+		}
+		if len(s.segs) == 1 && s.segs[0].k == segIP4 {
+			return tuple{[]value(nil), (*value)(nil), m.mkError("invalid CIDR address")}
 		}
 		a, n, ok := cidrRope(s)
 		if !ok {
